@@ -112,14 +112,31 @@ def canonical(c):
     return "".join(out)
 
 
+def num(n):
+    return ("NUMBER", str(n))
+
+
+def arith_atom(rng):
+    """a comparison between two arithmetic expressions over numbers ( * / + - and unary minus )"""
+    def term():
+        t = [num(rng.randint(0, 9))]
+        for _ in range(rng.choice([0, 1, 1, 2])):
+            t += [sym(rng.choice(["*", "*", "+", "-", "/"])), num(rng.randint(1, 9))]
+        return t
+    lhs = ([sym("-")] if rng.random() < 0.15 else []) + term()
+    return ("atom", tuple(lhs + [sym(rng.choice(["==", "!=", "<", ">", "<=", ">="]))] + term()))
+
+
 def accessor_atom(rng, alias, kind, values, negate=None):
     """a boolean-typed atomic condition over one alias"""
     r = rng.random()
+    if rng.random() < 0.07:
+        return arith_atom(rng)
     sacc = STRING_ACC.get(kind, ["getName"])
     if r < 0.65 or kind not in LIST_ACC:
         acc = rng.choice(sacc)
         pool = values.get((kind, acc)) or ["x"]
-        v = rng.choice(pool) if rng.random() < 0.8 else rng.choice(["nope", "SELECT", "a WHERE b", "x\"y"])
+        v = rng.choice(pool) if rng.random() < 0.8 else rng.choice(["nope", "SELECT", "a WHERE b", "x\"y", "two  blanks", "tab\there", " lead", "trail "])
         op = rng.choice(["==", "==", "!=", "==", "<", ">=", ">", "<="])
         lhs = [ident(alias), sym("."), ident(acc), sym("("), sym(")")]
         rhs = [strlit(esc_lit(v))]
@@ -198,6 +215,14 @@ def random_query(rng, kinds=None, values=None, n_entities=None, depth=3, n_preds
         pname = fresh_ident(rng, used, ["isX", "p", "pred", "check", "p2", "has", "q"])
         arity = rng.choice([1, 1, 2]) if len(q.from_items) > 1 else 1
         pks = rng.sample([k for k, _ in q.from_items], min(arity, len(q.from_items)))
+        if q.preds and len(q.from_items) > 1 and rng.random() < 0.4:
+            # an overload: the name and arity of an earlier predicate, other parameter kinds
+            o = rng.choice(q.preds)
+            opts = [c for c in ([[k] for k, _ in q.from_items] if len(o.params) == 1 else [[a, b] for a, _ in q.from_items for b, _ in q.from_items if a != b])
+                    if all([t for t, _ in x.params] != c for x in q.preds if x.name == o.name)]
+            if opts:
+                used.discard(pname)
+                pname, pks = o.name, rng.choice(opts)
         # formal names are arbitrary identifiers: they may coincide with FROM aliases (of any position)
         # or with formals of other predicates, only not with each other, kind names or predicate names
         pused = set(kinds) | {p.name for p in q.preds} | {pname}
@@ -260,7 +285,8 @@ def random_query(rng, kinds=None, values=None, n_entities=None, depth=3, n_preds
             q.select_items.append(("method_chain", a + "." + acc + "()"))
             q.select_tokens.append([ident(a), sym("."), ident(acc), sym("("), sym(")")])
         else:
-            content = rng.choice(["found", "a b", "x,y", "SELECT", "q\\\"uote", "tab\\\\t", "ünï", "WHERE it"])
+            content = rng.choice(["found", "a b", "x,y", "SELECT", "q\\\"uote", "tab\\\\t", "ünï", "WHERE it",
+                                  "two  blanks", "tab\there", " lead", "trail ", "nb\u00a0sp", "a   b    c", "line\nbreak"])
             q.select_items.append(("string", '"' + content + '"'))
             q.select_tokens.append([strlit(content)])
     flatten(q)
